@@ -12,7 +12,7 @@ import (
 )
 
 const prelude = `(set-logic ALL)
-(declare-fun strkey (Int Int Int) Int)
+(declare-fun strkey ((Array Int Int) Int Int) Int)
 (declare-fun strc (Int Int) Int)
 (declare-fun ifptr (Int) Int)
 (declare-fun iftype (Int) Int)
@@ -722,10 +722,13 @@ func (g *Gen) loopInvs(li *loopInfo) []Clause {
 func (g *Gen) loopEnv(cur *State) *Env {
 	env := g.specEnv(cur, g.entry)
 	env.locals = true
+	env.loop = g.curLoop
 	return env
 }
 
 func (g *Gen) loopHead(b *ssa.BasicBlock, li *loopInfo, st *State) *State {
+	g.curLoop = li
+	defer func() { g.curLoop = nil }()
 	invs := g.loopInvs(li)
 	// 1. invariants hold on entry
 	env := g.loopEnv(st)
@@ -791,6 +794,8 @@ func (g *Gen) loopHead(b *ssa.BasicBlock, li *loopInfo, st *State) *State {
 }
 
 func (g *Gen) backEdge(b *ssa.BasicBlock, succIdx int, li *loopInfo, st *State) {
+	g.curLoop = li
+	defer func() { g.curLoop = nil }()
 	guard := and(st.reach, g.edgeCond(b, succIdx))
 	env := g.loopEnv(st)
 	pos := token.NoPos
